@@ -492,3 +492,34 @@ Proof.
   rewrite (classify_modelled k falsy x Hn), sync_modelled, negb_involutive.
   unfold spec_cls, spec_sel; simpl. rewrite Hr. simpl. eexists. reflexivity.
 Qed.
+
+(* ================================================================== repeated / concurrent use *)
+Lemma mapi_app {A B} (f : nat -> A -> B) l e : forall k,
+  mapi f k (l ++ e) = mapi f k l ++ mapi f (k + length l) e.
+Proof.
+  induction l as [|x l IH]; intros k; simpl.
+  - rewrite Nat.add_0_r. reflexivity.
+  - rewrite IH. do 3 f_equal. lia.
+Qed.
+
+(* snapshot semantics: registering further callbacks (contextlib only appends) leaves the children
+   of the callbacks registered so far untouched and in place — the unfolding of the shorter
+   snapshot is a prefix of the unfolding of the longer one *)
+Lemma snapshot_prefix n cbs extra ex r p i oid a nm :
+  exists kids more,
+    fill (S n) ex r p i (Wth oid a nm (MStack cbs)) = COut oid a ex None kids i /\
+    fill (S n) ex r p i (Wth oid a nm (MStack (cbs ++ extra))) = COut oid a ex None (kids ++ more) i /\
+    length kids = length cbs /\ length more = length extra.
+Proof.
+  do 2 eexists. split; [reflexivity|]. split; [simpl; rewrite mapi_app; reflexivity|].
+  split; apply mapi_length.
+Qed.
+
+(* no state is carried from one extraction to the next: whatever happened before (including
+   extractions that failed part-way), the k-th extraction yields the unfolding of the tree as it is then *)
+Lemma history_stateless fuel pre f post :
+  nth_error (extract_seq fuel (pre ++ Some f :: post)) (length pre) = Some (HOk (series fuel f)).
+Proof.
+  unfold extract_seq. rewrite map_app. rewrite nth_error_app2 by (rewrite map_length; lia).
+  rewrite map_length, Nat.sub_diag. reflexivity.
+Qed.
